@@ -13,7 +13,10 @@ SPEC = {
              "with and without SetNX, memory, hybrid(memory,memory), redis (miniredis), hybrid(memory per node, shared redis); "
              "gated wrappers force the schedule (one step = one storage call); exhaustive: 2 threads x 3 ids x all pre-existing "
              "subsets x all schedules of length 4/5; random: 1-4 threads, ticks around the marker TTL; exhaustion at "
-             "MaxAttempts and at 1000 node slots; free-running contention without gates; non-trivial = has threads; distinct = "
+             "MaxAttempts and at 1000 node slots; single transient storage fault (schedule code 2: the storage call of that step, in "
+             "the shared tier for hybrid stores, returns an error): every fault position x every schedule of length 4/5 x "
+             "2-3 nodes each with its own hybrid store over one shared tier, plus one random fault in a third of the random "
+             "histories; free-running contention without gates; non-trivial = has threads; distinct = "
              "distinct case string"),
     "trusted_base": [
         "Lean 4.33 kernel; axioms propext, Classical.choice, Quot.sound only (audited per theorem on every run)",
@@ -30,7 +33,8 @@ SPEC = {
         "node-id leases: the holder renews in time (heartbeat 30 s < lease 90 s); a renewal after the lease lapsed re-asserts "
         "the claim unconditionally (not a counted violation, stated)",
         "crypto/rand never fails (Go >= 1.24 aborts the process instead), so the `continue` on a random error is not modelled",
-        "storage errors (faults) are outside this property's quantifier and are not injected",
+        "storage faults are transient errors of one call that is not applied (error-after-apply, e.g. a lost Redis reply, is "
+        "not modelled); faults hit the shared tier only (node-local caches do not fail); a caller does not retry a failed Release",
         "fallback path (store without SetNX) guarantees uniqueness for one generator instance only: known finding "
         "fallback-multi-instance; no store built by the server factory lacks SetNX (checked by the caps case)",
         "GenerateUniqueID wrappers (id_manager.go) are compositions of Generate and Release of the own id by one caller and "
